@@ -2,7 +2,7 @@
     Property theorems only; each is closed by [exact] of a lemma of [Proofs/]. *)
 From Coq Require Import List ZArith.
 From EDS Require Import Model.Objects Model.Limits Model.Rolling Model.ErsReconcile
-     Proofs.Lists Proofs.RollingProofs Proofs.SyncInv Proofs.C03Proofs.
+     Model.Abstract Proofs.Lists Proofs.RollingProofs Proofs.SyncInv Proofs.C03Proofs Proofs.C02Round.
 Import ListNotations.
 Open Scope Z_scope.
 
@@ -74,3 +74,19 @@ Print Assumptions C03_budget_refuted_before_fix.
 Example C03_example :
   plan_wf d3_plan /\ admissible_deletes d3_plan [2%N; 1%N] = true /\ mon_budget d3_plan [2%N; 1%N] = true.
 Proof. exact example_admissible. Qed.
+
+(** The budget over whole rounds (per-class abstraction; every fair round of the sync model is such a round with its own
+    plan's limits, [C02_round_projects]): a fair round never leaves more nodes without a Ready pod than there were before it
+    or than maxUnavailable allows, whatever the creation limit - the controller's own deletions of available pods stop at
+    the budget, everything else a round does only moves nodes between the unavailable classes or out of them ... *)
+Theorem C03_round_keeps_availability : forall maxc mu s,
+  a_wf s -> 0 <= mu -> a_unavailable (a_round maxc mu s) <= Z.max (a_unavailable s) mu.
+Proof. exact round_keeps_availability. Qed.
+Print Assumptions C03_round_keeps_availability.
+
+(** ... hence along any chain of fair rounds whose maxUnavailable stays within [mu] (the limits may differ from round to
+    round) the number of nodes without a Ready pod never exceeds the larger of what it was at the start and [mu] *)
+Theorem C03_chain_keeps_availability : forall mu n s s',
+  a_wf s -> a_chain_mu mu s n s' -> a_unavailable s' <= Z.max (a_unavailable s) mu.
+Proof. exact chain_keeps_availability. Qed.
+Print Assumptions C03_chain_keeps_availability.
